@@ -99,6 +99,7 @@ def run(ctx):
     per_system = {}
     n_oblig = n_proved = 0
     seen = set()
+    proved_set = set()
     systems = G.SYSTEMS
     only = os.environ.get("VERIF_C02_ONLY")          # development aid (mutation testing of one system); never set by ./check
     if only:
@@ -135,6 +136,7 @@ def run(ctx):
             ctx.add_case("%s %s" % (l["id"], l.get("hash")), l.get("proved", False) or l["id"] in base)
             if l.get("proved"):
                 n_proved += 1
+                proved_set.add(l["id"])
                 st["proved_by_equiv_check"] += 1
             else:
                 why = (l.get("why") or "")
@@ -181,10 +183,24 @@ def run(ctx):
         for b in sorted(base - seen):
             ctx.breaks.append({"what": "baseline label %s no longer exists in the regenerated models" % b})
     th = len(vlib.theorem_names(THEOREMS))
-    ctx.extra["obligations"] = th + n_oblig
-    ctx.extra["discharged"] = (th if ctx.coq_ok else 0) + n_proved
-    ctx.extra["per_label_obligations"] = n_oblig
+    # obligations = the theorems of Properties/C02.v + the per-label theorems of the baseline that were (re)checked this run;
+    # labels refuted on the pinned tree (known finding, with witnesses) are reported separately, not as open obligations
+    base_checked = sorted(base & seen)
+    proved_ids = {l for l in seen if l in proved_set}
+    kf_sigs = {k["signature"] for k in vlib.known_findings(ID)[0]}
+    neither = sorted(l for l in seen - proved_ids - base if ("step-differs:" + l) not in kf_sigs)
+    if not only:
+        for l in neither:
+            ctx.breaks.append({"what": "label %s is neither discharged, nor in the baseline, nor a known finding: the property is not shown for it" % l})
+    ctx.extra["obligations"] = th + len(base_checked) + len(neither)
+    ctx.extra["discharged"] = (th if ctx.coq_ok else 0) + len([l for l in base_checked if l in proved_ids])
+    ctx.extra["per_label_total"] = n_oblig
     ctx.extra["per_label_discharged"] = n_proved
+    ctx.extra["labels_discharged_outside_baseline"] = sorted(proved_ids - base)
+    ctx.extra["refuted_labels_known_finding"] = sorted(
+        l for l in seen - proved_ids - base if ("step-differs:" + l) in {k["signature"] for k in vlib.known_findings(ID)[0]})
+    ctx.extra["labels_neither_discharged_nor_known"] = sorted(
+        l for l in seen - proved_ids - base if ("step-differs:" + l) not in {k["signature"] for k in vlib.known_findings(ID)[0]})
     ctx.extra["per_system"] = per_system
     ctx.extra["coq_log"] = log[-40:]
     ctx.samples = [{"label": l, "status": "obligation discharged" if l in base else "see per_system"} for l in sorted(seen)[:4]]
